@@ -1224,3 +1224,21 @@ func (r *Run) releaseAllLogs() int {
 	}
 	return len(chs)
 }
+
+// release drops the large buffers of a finished run (history copies on the
+// wire, retained live transactions) so that long worker processes stay small.
+func (r *Run) release() {
+	for _, c := range r.calls {
+		c.Live = nil
+	}
+	if r.master != nil {
+		r.master.packets = nil
+		r.master.inbuf = nil
+	}
+	if r.conn != nil {
+		r.conn.mu.Lock()
+		r.conn.wire, r.conn.inbox = nil, nil
+		r.conn.mu.Unlock()
+	}
+	r.master, r.conn, r.streamer = nil, nil, nil
+}
